@@ -939,6 +939,17 @@ def rewriters_check(tier, seed):
             for Q1, Q2 in ((m.ForAll, m.Exists), (m.Exists, m.ForAll)):
                 q = Q1([pa], Q2([pb], c_))
                 fam += [q, m.Not(q), m.And(q, pc), m.Implies(q, Q2([pa], m.Or(pa, pc)))]
+        # multi-variable blocks next to siblings that use or bind the same names again: a block of which only some variables
+        # are renamed, followed (or preceded) by a sibling that binds one of the variables it kept - every order of the three
+        # conjuncts / disjuncts, both kinds of quantifier
+        import itertools as _it
+        for Q1, Q2 in ((m.Exists, m.Exists), (m.Exists, m.ForAll), (m.ForAll, m.Exists), (m.ForAll, m.ForAll)):
+            parts = [pa, Q1([pa, pb], m.And(pa, m.Not(pb))), Q2([pb], pb)]
+            parts2 = [pb, Q1([pa, pb], m.Or(pa, m.Not(pb))), Q2([pa], m.Not(pa)), Q2([pb, pc], m.Iff(pb, pc))]
+            for perm in _it.permutations(parts):
+                fam += [m.And(perm), m.Or(perm)]
+            for perm in _it.permutations(parts2):
+                fam += [m.And(perm), m.Or(perm)]
         for f in fam:
             n += 1
             try:
@@ -1013,7 +1024,9 @@ def rewriters_check(tier, seed):
                     "input on all interpretations (quantifiers evaluated exactly) and checked for its advertised shape; "
                     "propagate_toplevel on every ordered conjunction of 2 (and 300 / all of 3) equalities among three Int symbols and two "
                     "constants; plus %d arithmetic terms through TimesDistributor; both partitions on 11 nesting shapes of one connective "
-                    "(right / left / balanced nesting, shared and repeated sub-formulas, n-ary, mixed with the other connective)" % (trials, trials),
+                    "(right / left / balanced nesting, shared and repeated sub-formulas, n-ary, mixed with the other connective); prenex on 48 nested "
+                    "alternations and on every order of 3-4 siblings where a two-variable block is partly renamed and another sibling binds "
+                    "or uses a variable it kept (both connectives, all four pairs of quantifier kinds: 240 formulas)" % (trials, trials),
             "samples": samples, "violations": viol}
 
 
